@@ -1,8 +1,8 @@
 \* every complete behaviour within these bounds (exhaustive; hist is part of the state)
 SPECIFICATION GenSpec
 CONSTANTS D = 2
-  MaxPages = 3
-  MaxWriters = 4
+  MaxPages = 5
+  MaxWriters = 3
   MaxCbs = 0
   MVals = {"A"}
   CVals = {"-"}
